@@ -34,8 +34,10 @@ Section Proofs.
   Variable show_num : num -> text.
   Variable read_num : text -> num.
   Variable formula : Type.
-  (* the law of the two Rust primitives (checked by the harness on every generated number) *)
-  Hypothesis read_show : forall n, read_num (show_num n) = n.
+  Variable finite : num -> bool.
+  (* the law of the Rust primitives format!("{}") and parse::<f64> on FINITE numbers (checked by the
+     harness on every generated number); since /repo 3c03706 the reader maps a non-finite <v> to 0 *)
+  Hypothesis read_show : forall n, finite n = true -> read_num (show_num n) = n.
 
   Notation cell := (cell num formula).
   Notation enc := (enc_cell num show_num formula).
@@ -48,14 +50,15 @@ Section Proofs.
 
   Ltac finish :=
     cbn [dec_cell cell_type_of x_t x_v x_f x_s x_cm x_vm x_is mk xf_array xf_formula anchor_of canonical canon_fval is_dynamic];
-    unfold read_number; rewrite ?style_roundtrip, ?read_bool_text, ?read_show; try reflexivity.
+    unfold read_number; rewrite ?style_roundtrip, ?read_bool_text; try (rewrite read_show by assumption); try reflexivity.
 
   (* every kind: the reader returns the canonical form of what the writer was given *)
   Theorem cell_types here (c : cell) :
     evaluated num formula c = true -> texts_ok num formula c = true -> ids_ok num formula c = true ->
+    nums_finite num formula finite c = true ->
     exists x, enc c = Ok x /\ dec (anchor_of num formula c) here x = canonical here c.
   Proof.
-    intros He Ht Hi. destruct c as [s|v s|v s|e s|si s|t s|f s v|f s w h k v|s a v].
+    intros He Ht Hi Hn. destruct c as [s|v s|v s|e s|si s|t s|f s v|f s w h k v|s a v]; cbn [nums_finite] in Hn.
     - eexists. split; [reflexivity|]. finish.
     - eexists. split; [reflexivity|]. finish.
     - eexists. split; [reflexivity|]. unfold read_number. finish.
@@ -66,13 +69,13 @@ Section Proofs.
     - cbn [texts_ok] in Ht. cbn [enc_cell]. rewrite written_ok by exact Ht.
       eexists. split; [reflexivity|]. finish.
     - cbn [evaluated] in He. cbn [texts_ok] in Ht. cbn [ids_ok] in Hi. cbn [enc_cell].
-      destruct v as [|b|n|t|e o m]; cbn [enc_value fval_evaluated fval_text_ok fval_err_ok] in *; try discriminate He.
+      destruct v as [|b|n|t|e o m]; cbn [enc_value fval_evaluated fval_text_ok fval_err_ok fval_finite] in *; try discriminate He.
       + eexists. split; [reflexivity|]. finish.
       + eexists. split; [reflexivity|]. unfold read_number. finish.
       + rewrite written_ok by exact Ht. eexists. split; [reflexivity|]. finish.
       + eexists. split; [reflexivity|]. finish. rewrite read_error_display by exact Hi. reflexivity.
     - cbn [evaluated] in He. cbn [texts_ok] in Ht. cbn [ids_ok] in Hi. cbn [enc_cell].
-      destruct v as [|b|n|t|e o m]; cbn [enc_value fval_evaluated fval_text_ok fval_err_ok] in *; try discriminate He;
+      destruct v as [|b|n|t|e o m]; cbn [enc_value fval_evaluated fval_text_ok fval_err_ok fval_finite] in *; try discriminate He;
         destruct k.
       all: try (rewrite written_ok by exact Ht).
       all: eexists; (split; [reflexivity|]); unfold read_number; finish.
@@ -101,10 +104,10 @@ Section Proofs.
 
   Theorem cell_types_exact here (c : cell) :
     evaluated num formula c = true -> texts_ok num formula c = true -> ids_ok num formula c = true ->
-    exact here c = true ->
+    nums_finite num formula finite c = true -> exact here c = true ->
     exists x, enc c = Ok x /\ dec (anchor_of num formula c) here x = c.
   Proof.
-    intros He Ht Hi Hx. destruct (cell_types here c He Ht Hi) as [x [E D]].
+    intros He Ht Hi Hn Hx. destruct (cell_types here c He Ht Hi Hn) as [x [E D]].
     exists x. split; [exact E|]. rewrite D. apply canonical_exact. exact Hx.
   Qed.
 
@@ -128,9 +131,9 @@ Section Proofs.
 
   (* a spill cell that is not inside the range of an array formula written before it (the reader's
      [anchor] is None) comes back as an ordinary value cell *)
-  Lemma orphan_spill_number here s a n :
+  Lemma orphan_spill_number here s a n : finite n = true ->
     exists x, enc (CSpill num formula s a (SNum num n)) = Ok x /\ dec None here x = CNum num formula n s.
-  Proof. eexists. split; [reflexivity|]. unfold read_number. finish. Qed.
+  Proof. intro Hf. eexists. split; [reflexivity|]. unfold read_number. finish. Qed.
   Lemma orphan_spill_bool here s a b :
     exists x, enc (CSpill num formula s a (SBool num b)) = Ok x /\ dec None here x = CBool num formula b s.
   Proof. eexists. split; [reflexivity|]. finish. Qed.
@@ -138,9 +141,15 @@ Section Proofs.
     exists x, enc (CSpill num formula s a (SText num t)) = Ok x /\ dec None here x = CStrText num formula (canon_text t) s.
   Proof. intro Ht. cbn [enc_cell]. rewrite written_ok by exact Ht. eexists. split; [reflexivity|]. finish. Qed.
   (* ... and a value cell inside such a range comes back as a spill cell *)
-  Lemma covered_value_becomes_spill here s a n :
+  Lemma covered_value_becomes_spill here s a n : finite n = true ->
     exists x, enc (CNum num formula n s) = Ok x /\ dec (Some a) here x = CSpill num formula s a (SNum num n).
-  Proof. eexists. split; [reflexivity|]. unfold read_number. finish. Qed.
+  Proof. intro Hf. eexists. split; [reflexivity|]. unfold read_number. finish. Qed.
+
+  (* a non-finite number (the engine can hold inf: C08) is written as "inf" / "NaN" and read as
+     whatever the reader's fallback is (0.0 since /repo 3c03706) *)
+  Lemma nonfinite_number_replaced here s n z : read_num (show_num n) = z ->
+    exists x, enc (CNum num formula n s) = Ok x /\ dec None here x = CNum num formula z s.
+  Proof. intro Hz. eexists. split; [reflexivity|]. finish. rewrite Hz. reflexivity. Qed.
 
   (* a cached text result with a colliding look-alike is corrupted (F17) *)
   Lemma text_value_corrupted here f s :
